@@ -360,6 +360,32 @@ def check_announced(model, rep):
     rep.ob('R13.5', j.key, j.where(), ok, '_join_arguments rejects conflicting definitions of one name' if ok else '_join_arguments does not compare shape and dtype', statement='join-conflict')
 
 
+def check_exact_pruning(model, rep):
+    """R13.8: factor() drops a monomial coefficient only when it IS zero.  The entries kept from the evaluated coefficient arrays are
+    selected with `values.nonzero()` (or an equivalent exact test); a magnitude threshold (abs(values) > eps, isclose, ...) silently
+    drops small coefficients, which still matter for large arguments: factor(f) and its derivatives then differ from f."""
+    f = model.func('evaluable:factor')
+    sels = []
+    for n in ast.walk(f.node):
+        if isinstance(n, ast.Call) and ((isinstance(n.func, ast.Attribute) and n.func.attr == 'nonzero' and not n.args) or src(n.func) in ('numpy.nonzero', 'numpy.flatnonzero', 'numpy.where', 'numpy.argwhere')):
+            sels.append((n, n.func.value if isinstance(n.func, ast.Attribute) and n.func.attr == 'nonzero' and not n.args else (n.args[0] if n.args else None)))
+    if not sels:
+        raise AnalysisError('factor(): the selection of the non-zero coefficients was not found')
+    for call, what in sels:
+        w = deep_resolved(f.node, what) if what is not None else None
+        t = src(w) if w is not None else '?'
+        exact = t in ('values', 'values != 0', '0 != values', 'values != 0.0', 'values.astype(bool)')
+        thresholds = [c_ for c_ in ast.walk(w) if isinstance(c_, ast.Constant) and isinstance(c_.value, float) and c_.value != 0] if w is not None else []
+        approx = [c_ for c_ in ast.walk(w) if isinstance(c_, ast.Call) and src(c_.func) in ('numpy.isclose', 'numpy.allclose', 'math.isclose')] if w is not None else []
+        ok = exact and not thresholds and not approx
+        rep.ob('R13.8', f.key, f.where(call), ok, 'coefficients are pruned where they are exactly zero' if ok else
+               f'`{src(call)[:70]}` keeps the coefficients selected by `{t[:60]}`' + (f' (threshold {thresholds[0].value})' if thresholds else '') +
+               ': a coefficient that is small but not zero is dropped, so the factored polynomial and its derivatives no longer equal the function for large arguments', statement='exact-pruning')
+    tol = [c_ for c_ in ast.walk(f.node) if isinstance(c_, ast.Compare) and any(isinstance(x, ast.Constant) and isinstance(x.value, float) and 0 < abs(x.value) < 1e-3 for x in ast.walk(c_))]
+    rep.ob('R13.8', f.key, f.where(tol[0]) if tol else f.where(), not tol, 'no magnitude tolerance appears in factor()' if not tol else
+           f'`{src(tol[0])[:70]}` compares against a small tolerance inside factor(): the decomposition into monomials is exact algebra', statement='no-tolerance')
+
+
 def check_monomial_ravel(model, rep, rule='R13.7'):
     """Monomial._derivative scatters the derivative of the polynomial with respect to one argument through the ravelled multi-index
     of that argument: Inflate(Diagonalize(m), ravel_index, ravel_length) followed by unravel(..., arg.shape).  unravel is row-major,
@@ -419,6 +445,8 @@ def run(model, rep, tier):
     check_spec_opacity(model, rep)
     check_announced(model, rep)
     check_monomial_ravel(model, rep)
+    rep.rule('R13.8', 'factor() prunes coefficients only where they are exactly zero (no magnitude threshold)')
+    check_exact_pruning(model, rep)
     rep.require('R13.2', 13)
     rep.require('R13.3', 4)
     rep.require('R13.4', 2)
